@@ -278,7 +278,34 @@ class Table:
         return i
 
     def atom(self, head, args=(), extra=None, node=None):
+        if head == 'guard' and len(args) == 3 and isinstance(args[0], RF):
+            # one spelling per condition: guard(not c, a, b) is guard(c, b, a); likewise
+            # for `is not`, `!=`, `not in`
+            c, flipped = self.canon_cond(args[0])
+            args = (c, args[2], args[1]) if flipped else (c, args[1], args[2])
+            if isinstance(args[1], RF) and isinstance(args[2], RF) and self.equal(args[1], args[2]):
+                return args[1]
         return RF(self, p_atom(self.intern(head, args, extra, node)))
+
+    NEG_CMP = {'IsNot': 'Is', 'NotEq': 'Eq', 'NotIn': 'In'}
+
+    def canon_cond(self, rf):
+        """(positive form of a condition, whether it was negated)"""
+        flipped = False
+        while True:
+            a = rf.single_atom() if isinstance(rf, RF) else None
+            if a is None:
+                return rf, flipped
+            at = self.atoms[a]
+            if at.head == 'unop' and at.extra == 'Not' and isinstance(at.args[0], RF):
+                rf = at.args[0]
+                flipped = not flipped
+                continue
+            if at.head == 'cmp' and isinstance(at.extra, tuple) and len(at.extra) == 1 and at.extra[0] in self.NEG_CMP:
+                rf = RF(self, p_atom(self.intern('cmp', at.args, (self.NEG_CMP[at.extra[0]],), None)))
+                flipped = not flipped
+                continue
+            return rf, flipped
 
     def const(self, c):
         return RF(self, p_const(c))
@@ -627,7 +654,7 @@ class Conv:
             return t.atom('bool', tuple(self.expr(v) for v in n.values),
                           extra=type(n.op).__name__)
         if isinstance(n, ast.IfExp):
-            return t.atom('ifexp', (self.expr(n.test), self.expr(n.body),
+            return t.atom('guard', (self.expr(n.test), self.expr(n.body),
                                     self.expr(n.orelse)))
         if isinstance(n, (ast.Tuple, ast.List)):
             return t.atom('tuple', tuple(self.expr(e) for e in n.elts))
